@@ -59,6 +59,17 @@ public class CrrlOverrides implements ITLCOverrides {
         return ((IntValue) v).val;
     }
 
+    // identity on values: forces a lazily represented function with domain 1..n
+    // into an explicit tuple
+    @TLAPlusOperator(identifier = "Tup", module = "BigNat", warn = false)
+    public static Value tup(final Value f) {
+        final Value t = f.toTuple();
+        if (t == null) {
+            throw new RuntimeException("BigNat!Tup: not a sequence: " + f);
+        }
+        return t;
+    }
+
     @TLAPlusOperator(identifier = "Norm", module = "BigNat", warn = false)
     public static Value norm(final Value a) {
         return nat(big(a));
